@@ -34,7 +34,11 @@ RULE = ('ordered pairs of 18 dimension classes (7 base, 9 derived, '
         '/ lists of numbers (all zero, containing a zero, non-zero); an '
         'operand with itself; NaN magnitudes; element-wise agreement of '
         'array operators with X[i] op Y[i]; bundling and dimensional '
-        'exponents must raise. ')
+        'exponents must raise. '
+        ' '
+        'Rounds 17-19: copies / pickles of quantities under + - * / < =='
+        ' **; shared operands from four threads; operand construction itself'
+        ' observed.')
 ASSUMPTIONS = [
     'plain-number operands are Python int/float (numpy scalars against '
     'array quantities are dispatched by numpy before the library sees them)',
